@@ -221,7 +221,14 @@ func (r *renderer) stmt(s *Stmt) {
 			r.w("_ = %s", r.simple(s))
 		}
 	case "decl":
-		r.w("%s", r.simple(s))
+		switch s.T {
+		case "var":
+			r.w("var %s = %s", s.Name, r.expr(s.E))
+		case "var-typed":
+			r.w("var %s int = %s", s.Name, r.expr(s.E))
+		default:
+			r.w("%s", r.simple(s))
+		}
 		r.w("_ = %s", s.Name)
 	case "var":
 		r.w("var %s %s", s.Name, s.T)
@@ -394,6 +401,8 @@ func (r *renderer) stmt(s *Stmt) {
 	case "itdecl":
 		r.w("%s := %s", s.Name, r.iter(s.Iter))
 		r.w("_ = %s", s.Name)
+	case "itassign":
+		r.w("%s = %s", s.Name, r.iter(s.Iter))
 	case "raw":
 		for _, l := range strings.Split(r.expandRaw(s.Raw), "\n") {
 			r.w("%s", l)
